@@ -209,7 +209,7 @@ def _pinned_kernel():
 
 SUBCHECKS = [
     SubCheck(name="likelihood_kernels_vs_textbook_density", strategy=kernel_case, execute=execute_kernel, pinned=_pinned_kernel,
-             budget={"quick": 500, "thorough": 20000}, shards={"quick": 4, "thorough": 8}, modes=["jit", "nojit"],
+             budget={"quick": 500, "thorough": 20000}, shards={"quick": 4, "thorough": 8}, modes=["jit", "nojit", "nonumba"],
              min_nontrivial_fraction=0.3),
     SubCheck(name="end_to_end_tables_and_result_fields", strategy=lambda: gen.e2e_config(betas=(0.0, 0.5, 2.0, 10.0, 50.0), offsets=(0.0, 0.0, 1e3, 1e5, -1e6), scales=True, scale_prob=0.3),
              execute=execute_e2e, budget={"quick": 128, "thorough": 3000}, shards={"quick": 16, "thorough": 8}, modes=E2E_MODES,
